@@ -1348,6 +1348,10 @@ class Interp:
                 if name.startswith('__') and not name.endswith('__') and fr is not None and fr.cls is not None:
                     m = fr.cls.methods.get(name)
                     if m is not None:
+                        if m.kind == 'staticmethod':
+                            return FuncVal(m, None, fr.cls)
+                        if m.kind == 'classmethod':
+                            return FuncVal(m, ClassVal(fr.cls), fr.cls)
                         return FuncVal(m, o, fr.cls)
                 m = self.repo.find_method(cls, mname)
                 if m is not None:
